@@ -167,7 +167,9 @@
 
 (hy-repr-register [range slice] (fn [x]
   (defn r [attr]
-    (hy-repr (getattr x attr)))
+    (setv v (getattr x attr))
+    ; Quote a keyword so it isn't read as the start of a keyword argument.
+    (+ (if (isinstance v hy.models.Keyword) "'" "") (hy-repr v)))
   (.format "({})" (.join " " (+
     [(. (type x) __name__)]
     (if (= x.step (if (is (type x) range) 1 None))
